@@ -201,6 +201,20 @@ pub fn family(name: &str, tier: Tier) -> Vec<Case> {
             s.server_mode.vectored_slots = Some(1);
             s.server_mode.read_pause_us = 30_000;
             add(s, 1);
+            // the two endpoints advertise different max_ack_delay values: each must run its delayed-ACK
+            // timer with the value it advertised itself, not with the peer's
+            let mut s = Scenario::base("data/ack-delay-client200-server25-sink");
+            s.client.max_ack_delay_ms = Some(200);
+            s.server_mode.echo = false;
+            s.tasks = vec![vec![Op::OpenBidi, Op::Write(100, 0), Op::Sleep(400), Op::Write(100, 0), Op::Sleep(400), Op::Write(2500, 0), Op::Sleep(400), Op::Finish, Op::AwaitReader]];
+            add(s, 1);
+            let mut s = Scenario::base("data/ack-delay-client25-server200-push");
+            s.server.max_ack_delay_ms = Some(200);
+            s.tasks = vec![vec![Op::OpenUni, Op::Write(10, 0), Op::Sleep(600), Op::Close]];
+            s.server_mode.push_streams = 2;
+            s.server_mode.push_size = 2500;
+            s.client_accepts_uni = true;
+            add(s, 1);
             let mut s = Scenario::base("data/echo-12289-windows-1500-3000");
             s.tasks = vec![echo_task(12_289, 0)];
             s.client.stream_window = Some(1500);
@@ -265,6 +279,20 @@ pub fn family(name: &str, tier: Tier) -> Vec<Case> {
                 s.tasks = vec![echo_task(4097, 0), uni_task(1199, 0)];
                 add(s, 1);
             }
+            // bulk transfers in one direction: the receiver answers with ACK-only packets while more than
+            // a hundred packets are outstanding, so packet numbers are truncated against a basis that is
+            // far behind (RFC 9000 17.1 / A.2, A.3)
+            let mut s = Scenario::base("data/upload-400000-sink");
+            s.server_mode.echo = false;
+            s.tasks = vec![vec![Op::OpenUni, Op::Write(400_000, 0), Op::Close]];
+            out.push(Case { scn: s, menu: menu_null(), k: 1, extra: vec![], expect: Expect::Complete, injects: vec![], differential: false, first_index: 0, adv: None, last_index: 24 });
+            let mut s = Scenario::base("data/download-400000-push-tls");
+            s.tls = Tls::S2n;
+            s.tasks = vec![vec![Op::OpenUni, Op::Write(10, 0), Op::Close]];
+            s.server_mode.push_streams = 1;
+            s.server_mode.push_size = 400_000;
+            s.client_accepts_uni = true;
+            out.push(Case { scn: s, menu: menu_null(), k: 1, extra: vec![], expect: Expect::Complete, injects: vec![], differential: false, first_index: 0, adv: None, last_index: 24 });
         }
         // ------------------------------------------------------------------ LIVE
         "live" => {
